@@ -36,7 +36,9 @@ use barter::{
         clock::HistoricalClock,
         execution_tx::MultiExchangeTxMap,
         state::{
-            instrument::data::InstrumentDataState,
+            EngineState,
+            global::DefaultGlobalData,
+            instrument::data::{DefaultInstrumentMarketData, InstrumentDataState},
             position::{Position, PositionExited, PositionManager},
             trading::TradingState,
         },
@@ -57,10 +59,21 @@ use barter_execution::{
     trade::{AssetFees, Trade, TradeId},
 };
 use barter_instrument::{
-    Side,
-    asset::QuoteAsset,
+    Side, Underlying,
+    asset::{Asset, QuoteAsset},
     exchange::{ExchangeId, ExchangeIndex},
-    instrument::InstrumentIndex,
+    index::IndexedInstruments,
+    instrument::{
+        Instrument, InstrumentIndex,
+        kind::{
+            InstrumentKind,
+            future::FutureContract,
+            option::{OptionContract, OptionExercise, OptionKind},
+            perpetual::PerpetualContract,
+        },
+        quote::InstrumentQuoteAsset,
+        spec::{InstrumentSpec, InstrumentSpecNotional, InstrumentSpecPrice, InstrumentSpecQuantity, OrderQuantityUnits},
+    },
 };
 use barter_integration::channel::{UnboundedTx, mpsc_unbounded};
 use rand::Rng;
@@ -81,7 +94,71 @@ type Eng = Engine<
     DefaultRiskManager<world::State>,
 >;
 
-const N_INSTR: usize = 4;
+const N_INSTR: usize = 6;
+
+// ---------------------------------------------------------------------------------------------
+// the instrument universe of the Position drivers: every flavour of kind / InstrumentSpec.
+// C02's "size = net signed filled quantity" holds whatever the instrument's kind and spec.
+//   i0 binance spot    btc/usdt  spec None
+//   i1 binance spot    eth/usdt  quantity in units of the base asset
+//   i2 binance perp    btc/usdt  quantity in CONTRACTS, contract_size 0.01
+//   i3 kraken  spot    btc/usdt  quantity in quote units
+//   i4 kraken  future  eth/usdt  quantity in CONTRACTS, contract_size 10
+//   i5 kraken  option  btc/usdt  quantity in CONTRACTS, contract_size 10
+// ---------------------------------------------------------------------------------------------
+const FLAVOURS: [&str; N_INSTR] = [
+    "spot/spec-none", "spot/asset-units", "perpetual/contract-units/size-0.01",
+    "spot/quote-units", "future/contract-units/size-10", "option/contract-units/size-10",
+];
+const EX_OF: [usize; N_INSTR] = [0, 0, 0, 1, 1, 1];
+
+fn ispec(unit: OrderQuantityUnits<Asset>) -> Option<InstrumentSpec<Asset>> {
+    Some(InstrumentSpec::new(
+        InstrumentSpecPrice::new(Decimal::new(1, 8), Decimal::new(1, 8)),
+        InstrumentSpecQuantity::new(unit, Decimal::new(1, 8), Decimal::new(1, 8)),
+        InstrumentSpecNotional::new(Decimal::new(1, 8)),
+    ))
+}
+
+fn pos_instruments() -> IndexedInstruments {
+    let usdt = || Asset::from("usdt");
+    let derivative = |e, name: &str, ex: &str, base: &str, kind| {
+        Instrument::new(e, name.to_string(), ex.to_string(), Underlying::new(base, "usdt"), InstrumentQuoteAsset::UnderlyingQuote, kind,
+                        ispec(OrderQuantityUnits::Contract))
+    };
+    IndexedInstruments::builder()
+        .add_instrument(Instrument::spot(ExchangeId::BinanceSpot, "p0_binance_btc_usdt", "BTCUSDT", Underlying::new("btc", "usdt"), None))
+        .add_instrument(Instrument::spot(ExchangeId::BinanceSpot, "p1_binance_eth_usdt", "ETHUSDT", Underlying::new("eth", "usdt"),
+                                         ispec(OrderQuantityUnits::Asset(Asset::from("eth")))))
+        .add_instrument(derivative(ExchangeId::BinanceSpot, "p2_binance_btc_usdt_perp", "BTCUSDT-PERP", "btc",
+                                   InstrumentKind::Perpetual(PerpetualContract { contract_size: Decimal::new(1, 2), settlement_asset: usdt() })))
+        .add_instrument(Instrument::spot(ExchangeId::Kraken, "p3_kraken_btc_usdt", "XBT/USDT", Underlying::new("btc", "usdt"),
+                                         ispec(OrderQuantityUnits::Quote)))
+        .add_instrument(derivative(ExchangeId::Kraken, "p4_kraken_eth_usdt_future", "ETHUSDT-FUT", "eth",
+                                   InstrumentKind::Future(FutureContract { contract_size: Decimal::from(10), settlement_asset: usdt(), expiry: time(86_400 * 90) })))
+        .add_instrument(derivative(ExchangeId::Kraken, "p5_kraken_btc_usdt_option", "BTCUSDT-C", "btc",
+                                   InstrumentKind::Option(OptionContract {
+                                       contract_size: Decimal::from(10), settlement_asset: usdt(), kind: OptionKind::Call,
+                                       exercise: OptionExercise::European, expiry: time(86_400 * 90), strike: Decimal::from(7),
+                                   })))
+        .build()
+}
+
+fn pos_world(trading: TradingState) -> world::State {
+    let st: world::State = EngineState::builder(&pos_instruments(), DefaultGlobalData::default(), DefaultInstrumentMarketData::default)
+        .time_engine_start(time(0))
+        .trading_state(trading)
+        .build();
+    // layout the drivers rely on
+    assert_eq!(st.instruments.0.len(), N_INSTR);
+    for (i, (name, inst)) in st.instruments.0.iter().enumerate() {
+        assert!(name.as_ref().starts_with(&format!("p{i}_")), "instrument {i} is {name}");
+        assert_eq!(inst.instrument.exchange, ExchangeIndex(EX_OF[i]), "exchange of instrument {i}");
+    }
+    let ids: Vec<ExchangeId> = st.connectivity.exchange_ids().copied().collect();
+    assert_eq!(ids, world::EXCHANGES.to_vec());
+    st
+}
 
 // ---------------------------------------------------------------------------------------------
 // projection
@@ -177,7 +254,7 @@ fn milli_exit(x: Option<&Exit>) -> Value {
 // the system under test behind the entry points the properties name
 // ---------------------------------------------------------------------------------------------
 fn new_engine() -> Eng {
-    let state = world::engine_state(TradingState::Disabled);
+    let state = pos_world(TradingState::Disabled);
     let (tx0, _rx0) = mpsc_unbounded();
     let (tx1, _rx1) = mpsc_unbounded();
     let txs = MultiExchangeTxMap::from_iter([
@@ -234,20 +311,24 @@ fn at_most_one(mut exits: Vec<Exit>) -> Result<Option<Exit>, String> {
 }
 
 fn exchange_index_of(i: usize) -> ExchangeIndex {
-    ExchangeIndex(i / 2)
+    ExchangeIndex(EX_OF[i])
 }
 fn exchange_id_of(i: usize) -> ExchangeId {
-    world::EXCHANGES[i / 2]
+    world::EXCHANGES[EX_OF[i]]
 }
 
 impl Sut {
     fn new(mode: &str) -> Self {
         match mode {
             "pm" => Sut::Pm(Box::new(std::array::from_fn(|_| PositionManager::default()))),
-            "state" => Sut::State(Box::new(world::engine_state(TradingState::Disabled))),
-            "instr" => Sut::Instr(Box::new(world::engine_state(TradingState::Disabled))),
+            "state" => Sut::State(Box::new(pos_world(TradingState::Disabled))),
+            "instr" => Sut::Instr(Box::new(pos_world(TradingState::Disabled))),
             "engine" => Sut::Engine(Box::new(new_engine())),
-            "algo" => Sut::Algo(Box::new(engine_kit::Kit::new(TradingState::Enabled)), 0),
+            "algo" => {
+                let mut kit = engine_kit::Kit::new(TradingState::Enabled);
+                kit.engine.state = pos_world(TradingState::Enabled);
+                Sut::Algo(Box::new(kit), 0)
+            }
             m => usage(&format!("unknown mode {m}")),
         }
     }
@@ -265,7 +346,7 @@ impl Sut {
     fn arm_strategy(&mut self, i: usize) {
         if let Sut::Algo(k, n) = self {
             *n += 1;
-            let req = engine_kit::open_req(&json!({"k": "open", "ex": i / 2, "inst": i, "cid": format!("a{n}"),
+            let req = engine_kit::open_req(&json!({"k": "open", "ex": EX_OF[i], "inst": i, "cid": format!("a{n}"),
                                                     "side": if *n % 2 == 0 { "buy" } else { "sell" }, "qty": 1, "hasId": false}));
             let mut sc = k.script.lock();
             sc.cancels.clear();
@@ -340,6 +421,36 @@ impl Sut {
                     0 => Ok(()),
                     n => Err(format!("{n} position-closed record(s) emitted for a market event")),
                 }
+            }
+        }
+    }
+
+    /// Persist: store and restore the state that holds the positions - a serde_json round trip of
+    /// every `PositionManager` (pm) / of `EngineState.instruments` (the other routes; an EngineState as
+    /// a whole has non-string map keys and does not serialise to JSON).
+    fn persist(&mut self) -> Result<(), String> {
+        fn round_trip<T: serde::Serialize + serde::de::DeserializeOwned>(x: &T) -> Result<T, String> {
+            let text = serde_json::to_string(x).map_err(|e| format!("state does not serialise: {e}"))?;
+            serde_json::from_str(&text).map_err(|e| format!("stored state does not deserialise: {e}"))
+        }
+        match self {
+            Sut::Pm(pms) => {
+                for pm in pms.iter_mut() {
+                    *pm = catch(|| round_trip(&*pm))??;
+                }
+                Ok(())
+            }
+            Sut::State(s) | Sut::Instr(s) => {
+                s.instruments = catch(|| round_trip(&s.instruments))??;
+                Ok(())
+            }
+            Sut::Engine(e) => {
+                e.state.instruments = catch(|| round_trip(&e.state.instruments))??;
+                Ok(())
+            }
+            Sut::Algo(k, _) => {
+                k.engine.state.instruments = catch(|| round_trip(&k.engine.state.instruments))??;
+                Ok(())
             }
         }
     }
@@ -525,6 +636,12 @@ fn replay_step(sut: &mut Sut, i: usize, ev: &Value, k: usize, focus: &str, ep: i
             }
             exit = None;
         }
+        "Persist" => {
+            if let Err(e) = sut.persist() {
+                return Some(Mismatch { class: "panic", error: format!("store / restore failed: {e}"), got: Value::Null });
+            }
+            exit = None;
+        }
         a => usage(&format!("unknown scenario event {a}")),
     }
     // --- bookkeeping (C02): every field of Position but the estimate, the PositionExited, isolation
@@ -582,8 +699,10 @@ fn cmd_replay(a: &Args) {
     let (mut ok, mut steps) = (0usize, 0usize);
     let mut arms: BTreeMap<String, u64> = BTreeMap::new();
     let mut classes: BTreeMap<String, u64> = BTreeMap::new();
+    let mut flavours: BTreeMap<String, u64> = BTreeMap::new();
     for (n, scn) in scns.iter().enumerate() {
         let i = a.get("instrument").map(|x| x.parse().unwrap()).unwrap_or(n % N_INSTR);
+        *flavours.entry(FLAVOURS[i].to_string()).or_default() += 1;
         let mut sut = Sut::new(&mode);
         let evs = scn["evs"].as_array().unwrap_or_else(|| usage("scenario without evs"));
         let mut res = json!({"scn": n, "ok": true, "steps": evs.len(), "instrument": i});
@@ -604,7 +723,7 @@ fn cmd_replay(a: &Args) {
                     // ... so is an unchanged estimate on a market event that must leave it unchanged
                     let unchanged = m.got.get("unreal").is_some() && m.got.get("unreal") == before[i].get("unreal");
                     let cascade = m.class == "unreal" && !in_sync
-                        && (s(ev, "arm") == "Stale" || (s(ev, "arm") == "NoMark" && unchanged));
+                        && (s(ev, "arm") == "Stale" || (unchanged && (s(ev, "arm") == "NoMark" || s(ev, "a") == "Persist")));
                     let rec = json!({"scn": n, "ok": false, "step": k, "class": m.class, "error": m.error, "cascade": cascade,
                                      "event": ev, "pre": before[i], "pre_price": prev_price, "got": m.got, "instrument": i,
                                      "got_price": sut.price(i).map(dstr).unwrap_or(json!("none"))});
@@ -633,7 +752,8 @@ fn cmd_replay(a: &Args) {
     }
     out.finish();
     println!("{}", json!({"mode": mode, "focus": focus, "scale": scale, "scenarios": scns.len(), "ok": ok,
-                          "failed": scns.len() - ok, "steps": steps, "arms": arms, "mismatch_classes": classes}));
+                          "failed": scns.len() - ok, "steps": steps, "arms": arms, "mismatch_classes": classes,
+                          "instrument_flavours": if mode == "pm" { json!({"stand-alone PositionManager": scns.len()}) } else { json!(flavours) }}));
 }
 
 // ---------------------------------------------------------------------------------------------
@@ -689,6 +809,19 @@ impl Recorder {
         self.isolation(i, t, &before, out);
     }
 
+    /// store and restore the whole state: one `Persist` line per traced instrument
+    fn persist(&mut self, instrs: &[usize], t: i64, out: &mut Out) {
+        self.calls += 1;
+        let r = self.sut.persist();
+        for &i in instrs {
+            let post = match &r {
+                Ok(()) => milli_pos(self.sut.position(i)),
+                Err(e) => json!({"panic": e}),
+            };
+            out.line(&trace_line("Persist", i, "", json!(0), 0, 0, 0, t, false, "", 0, post, milli_exit(None)));
+        }
+    }
+
     /// returns the kind of line written ("Mark" | "Quiet")
     fn market(&mut self, i: usize, kind: &str, t: i64, mp: i64, variant: u64, out: &mut Out) -> &'static str {
         let before = self.before();
@@ -718,7 +851,9 @@ fn cmd_random(a: &Args) {
     let nonpos_fills = a.u64("nonpos-fills", 0) == 1;
     let mut rng = rng(seed ^ 0xC02C15);
     let mut out = Out::create(a.req("out"));
-    let instrs = [0usize, 3usize]; // one per exchange
+    // one instrument per exchange, both traded in contracts (perpetual 0.01, future 10); the other
+    // flavours are driven by the replayed TLC behaviours
+    let instrs = [2usize, 4usize];
     let mut arms: BTreeMap<String, u64> = BTreeMap::new();
     let mut done = 0usize;
     let mut segments = 0usize;
@@ -738,7 +873,11 @@ fn cmd_random(a: &Args) {
                 _ => rng.random_range(1..=now + 1),
             };
             now = now.max(t);
-            if rng.random_range(0..5) < 2 && nfill[i] < 4 {
+            if rng.random_range(0..8) == 0 {
+                // a session restart / snapshot hand-over in the middle of the history
+                rec.persist(&instrs, now, &mut out);
+                *arms.entry("Persist".into()).or_default() += 1;
+            } else if rng.random_range(0..5) < 2 && nfill[i] < 4 {
                 let side = if rng.random_bool(0.5) { Side::Buy } else { Side::Sell };
                 let (mut p, q, fee) = (rng.random_range(1..=20i64), rng.random_range(1..=4i64), rng.random_range(0..=2i64));
                 {
@@ -802,6 +941,8 @@ fn cmd_retrace(a: &Args) {
             "Mark" | "Quiet" => {
                 rec.market(inst, s(l, "kind"), i(l, "t"), i(l, "mp") / 1000, k as u64, &mut out);
             }
+            // one store / restore produced a Persist line per traced instrument: redo it once
+            "Persist" if k == 0 || s(&lines[k - 1], "a") != "Persist" => rec.persist(&instrs, i(l, "t"), &mut out),
             _ => {} // Reset / Foreign lines are produced, not consumed
         }
     }
